@@ -97,7 +97,7 @@ pub fn oracle(f: u32, a: &Args, out: &Args) -> Option<(&'static str, String)> {
                 return Some(("C18", "a non-https or unparsable URL produced a request".into()));
             }
             if out[0][0] == 1 && a.len() >= 3 && (out[1] != a[1] || out[2] != a[2]) {
-                return Some(("C18", "authority/path of the request differ from the URL's".into()));
+                return Some(("C18+C02", format!("authority/path of the request {:?} {:?} differ from the URL's {:?} {:?}", s(&out[1]), s(&out[2]), s(&a[1]), s(&a[2]))));
             }
             None
         }
@@ -159,7 +159,7 @@ pub fn generate(rng: &mut Rng, thorough: bool) -> Vec<Case> {
     let hosts = ["localhost", "example.com", "127.0.0.1", "[::1]", "[2001:db8::1]", "a.b.c.example", "xn--bcher-kva.example"];
     let ports = ["", ":443", ":4433", ":65535", ":1"];
     let paths = ["", "/", "/a", "/a/b/c", "/index.html", "/p%20q", "/\u{e9}t\u{e9}"];
-    let queries = ["", "?", "?a=b", "?a=b&c=d", "?x=%2F"];
+    let queries = ["", "?", "?a=b", "?a=b&c=d", "?x=%2F", "?a="];
     for h in hosts {
         for p in ports {
             for pa in paths {
